@@ -263,9 +263,9 @@ Fixpoint strictly_inc (l : list Z) : bool :=
 Definition oracle_gen (lenient : bool) (c : case) : bool :=
   match c with
   | GInit t0 cost grow step ranks rc =>
-      (step =? 0) || negb (strictly_inc (firstn 15 ranks))
+      (step =? 0) || negb (strictly_inc (firstn 15 ranks)) || (hd 1 ranks =? 0)
   | Hist t0 cost grow step ranks nusers l =>
-      negb (step =? 0) && strictly_inc (firstn 15 ranks)
+      negb (step =? 0) && strictly_inc (firstn 15 ranks) && negb (hd 1 ranks =? 0)
       && oracle_hist lenient cost grow step (firstn 15 ranks) nusers
            (mktrack (Gv 0 0 0 0 cost 0 0 t0) [] [] [] 0) l
   | GMA cost size r =>
@@ -292,11 +292,5 @@ Definition oracle_gen (lenient : bool) (c : case) : bool :=
 
 Definition oracle_b (c : case) : bool := oracle_gen false c.
 
-(* known finding class 1 (ZeroThresholdFreshUser): the rank table contains the threshold 0 and the
-   ONLY failing clause is the rank of a user that never held GT (rank 0, one threshold <= 0) *)
-Definition known_b (c : case) : Z :=
-  match c with
-  | Hist _ _ _ _ ranks _ _ =>
-      if mem_z 0 (firstn 15 ranks) && negb (oracle_gen false c) && oracle_gen true c then 1 else 0
-  | _ => 0
-  end.
+(* ZeroThresholdFreshUser was repaired (init rejects a zero threshold): no known class is left *)
+Definition known_b (c : case) : Z := 0.
